@@ -28,6 +28,7 @@ struct R : Runner {
 	}
 	std::string run(int op, const std::vector<std::string>& a) override {
 		return guarded([&]() -> std::string {
+			if (op == OP_limits) return limits_of<T, Tr>(false);
 			if (op >= OP_from_f32 && op <= OP_to_f80) return native_conv<T, Tr>(op, a);
 			T x = Tr::mk(a[0]);
 			switch (op) {
@@ -50,6 +51,7 @@ struct R : Runner {
 		});
 	}
 	void extra(const std::string& ha, Rng& g, const std::function<void(int, std::vector<std::string>)>& emit) override {
+		if (g_group == "cmp" && ha.find_first_not_of('0') == std::string::npos) emit(OP_limits, {});
 		if (g_group != "conv") return;
 		bool first = ha.find_first_not_of('0') == std::string::npos;
 		T x = Tr::mk(ha); T y = x; ++y;
